@@ -1,8 +1,13 @@
-import Mathlib.Analysis.SpecialFunctions.Log.Basic
+import Mathlib.Analysis.SpecialFunctions.Log.Deriv
+import Mathlib.Analysis.SpecialFunctions.ExpDeriv
+import Mathlib.MeasureTheory.Integral.IntervalIntegral.FundThmCalculus
 import CopVerif.Real.Inst
 import CopVerif.Gen.Bivariate
-/-! Frank copula over ℝ (both signs of θ): spec, bridge to the generated definitions, C06 facts.
-    Derivative / density / integral facts (C07) are in `CopVerif/Real/FrankDeriv.lean`. -/
+/-! Frank copula over ℝ (both signs of θ, every statement is for `θ ≠ 0`): spec, bridge to the
+    generated definitions, C06 facts (boundary, symmetry, generator, Archimedean identity,
+    monotonicity, Fréchet bounds, row independence) and C07 facts (`∂C/∂v = h`, `∂h/∂u = c`,
+    density positivity/symmetry, `h ∈ [0,1]`, Rosenblatt integral identity, row independence of
+    `partial_derivative` and `probability_density`). -/
 namespace CopVerif.Frank
 open CopVerif NumFns Real
 
@@ -149,7 +154,10 @@ theorem den_ne_zero' {θ u : ℝ} (hθ : θ ≠ 0) (hu : 0 ≤ u) (hu1 : u ≤ 1
 
 /-! ### C06 facts -/
 
+/-- Grounded: `g(0) = 0`, so the log argument is exactly `1` (for θ ≠ 0 no totalised operation is
+involved; at the inadmissible θ = 0 the equation also holds, by the junk value `-1/0 = 0`). -/
 theorem C_zero_right (θ u : ℝ) : C θ u 0 = 0 := by simp [C]
+/-- See `C_zero_right`. -/
 theorem C_zero_left (θ v : ℝ) : C θ 0 v = 0 := by simp [C]
 
 theorem C_symm (θ u v : ℝ) : C θ u v = C θ v u := by
@@ -318,5 +326,230 @@ theorem cdf_rowwise {θ : ℝ} (hθ : θ ≠ 0) (xs : List (ℝ × ℝ)) :
 /-- `θ = 0` (the independence limit) is rejected by `check_fit`: the method raises. -/
 theorem cdf_theta_zero (xs : List (ℝ × ℝ)) : Gen.Frank.cdf (0 : ℝ) xs = .error .notFitted := by
   simp [Gen.Frank.cdf, checkFit]
+
+end CopVerif.Frank
+
+namespace CopVerif.Frank
+open CopVerif NumFns Real
+
+/-! ### C07 facts: derivatives, density, conditional CDF -/
+
+theorem one_add_g_add (θ u v : ℝ) : 1 + g θ (u + v) = (1 + g θ u) * (1 + g θ v) := by
+  rw [one_add_g, one_add_g, one_add_g, ← Real.exp_add]; congr 1; ring
+
+theorem one_add_g_pos (θ z : ℝ) : 0 < 1 + g θ z := by rw [one_add_g]; exact Real.exp_pos _
+
+theorem continuous_g (θ : ℝ) : Continuous (g θ) := by unfold g; fun_prop
+
+theorem hasDerivAt_g (θ z : ℝ) : HasDerivAt (g θ) (-θ * (1 + g θ z)) z := by
+  have := (((hasDerivAt_id' z).const_mul (-θ)).exp).sub_const 1
+  rw [one_add_g]
+  exact this.congr_deriv (by ring)
+
+/-- `∂C/∂v = h` wherever the log argument is positive. -/
+theorem hasDerivAt_C_right_of_pos {θ u v : ℝ} (hθ : θ ≠ 0)
+    (hD : 0 < 1 + g θ u * g θ v / g θ 1) :
+    HasDerivAt (fun v => C θ u v) (h θ u v) v := by
+  have h1 := g_one_ne_zero hθ
+  have hden : g θ u * g θ v + g θ 1 ≠ 0 := by
+    rw [den_eq hθ]; exact mul_ne_zero h1 hD.ne'
+  have hin : HasDerivAt (fun v => 1 + g θ u * g θ v / g θ 1)
+      (g θ u * (-θ * (1 + g θ v)) / g θ 1) v :=
+    (((hasDerivAt_g θ v).const_mul (g θ u)).div_const (g θ 1)).const_add 1
+  have := (hin.log hD.ne').const_mul (-1 / θ)
+  refine this.congr_deriv ?_
+  have e : 1 + g θ u * g θ v / g θ 1 = (g θ u * g θ v + g θ 1) / g θ 1 := by
+    field_simp; ring
+  rw [e, h]
+  field_simp
+  ring
+
+/-- `∂C/∂v = h` on `[0,1] × ℝ` (in particular on the open and the closed unit square). -/
+theorem hasDerivAt_C_right {θ u : ℝ} (hθ : θ ≠ 0) (hu : 0 ≤ u) (hu1 : u ≤ 1) (v : ℝ) :
+    HasDerivAt (fun v => C θ u v) (h θ u v) v :=
+  hasDerivAt_C_right_of_pos hθ (D_pos' hθ hu hu1 v)
+
+/-- `∂C/∂v = h` on `ℝ × [0,1]`. -/
+theorem hasDerivAt_C_right' {θ v : ℝ} (hθ : θ ≠ 0) (u : ℝ) (hv : 0 ≤ v) (hv1 : v ≤ 1) :
+    HasDerivAt (fun v => C θ u v) (h θ u v) v :=
+  hasDerivAt_C_right_of_pos hθ (D_pos hθ u hv hv1)
+
+/-- `∂h/∂u = c` wherever the common denominator does not vanish. -/
+theorem hasDerivAt_h_left_of_ne {θ u v : ℝ} (hden : g θ u * g θ v + g θ 1 ≠ 0) :
+    HasDerivAt (fun u => h θ u v) (c θ u v) u := by
+  have hg := hasDerivAt_g θ u
+  have hnum : HasDerivAt (fun u => g θ u * g θ v + g θ u)
+      (-θ * (1 + g θ u) * g θ v + -θ * (1 + g θ u)) u := (hg.mul_const (g θ v)).add hg
+  have hd : HasDerivAt (fun u => g θ u * g θ v + g θ 1) (-θ * (1 + g θ u) * g θ v) u :=
+    (hg.mul_const (g θ v)).add_const (g θ 1)
+  have := hnum.div hd hden
+  refine this.congr_deriv ?_
+  simp only [c, one_add_g_add]
+  congr 1
+  ring
+
+/-- `∂h/∂u = c` on `[0,1] × ℝ`. -/
+theorem hasDerivAt_h_left {θ u : ℝ} (hθ : θ ≠ 0) (hu : 0 ≤ u) (hu1 : u ≤ 1) (v : ℝ) :
+    HasDerivAt (fun u => h θ u v) (c θ u v) u :=
+  hasDerivAt_h_left_of_ne (den_ne_zero' hθ hu hu1 v)
+
+/-- `∂h/∂u = c` on `ℝ × [0,1]`. -/
+theorem hasDerivAt_h_left' {θ v : ℝ} (hθ : θ ≠ 0) (u : ℝ) (hv : 0 ≤ v) (hv1 : v ≤ 1) :
+    HasDerivAt (fun u => h θ u v) (c θ u v) u :=
+  hasDerivAt_h_left_of_ne (den_ne_zero hθ u hv hv1)
+
+/-- The density is strictly positive wherever its denominator does not vanish. -/
+theorem c_pos_of_ne {θ u v : ℝ} (hθ : θ ≠ 0) (hden : g θ u * g θ v + g θ 1 ≠ 0) :
+    0 < c θ u v := by
+  have h1 := neg_theta_mul_g_one_pos hθ
+  have h2 := one_add_g_pos θ (u + v)
+  have h3 : 0 < (g θ u * g θ v + g θ 1) ^ 2 := by positivity
+  exact div_pos (mul_pos h1 h2) h3
+
+/-- The density is strictly positive on the closed unit square (and on `[0,1] × ℝ`). -/
+theorem c_pos {θ u : ℝ} (hθ : θ ≠ 0) (hu : 0 ≤ u) (hu1 : u ≤ 1) (v : ℝ) : 0 < c θ u v :=
+  c_pos_of_ne hθ (den_ne_zero' hθ hu hu1 v)
+
+theorem c_symm (θ u v : ℝ) : c θ u v = c θ v u := by
+  simp only [c, add_comm u v, mul_comm (g θ u)]
+
+/-- `h` as a Möbius image of `p = r(u) ∈ [0,1]`: `h = p·y / ((1-p) + p·y)` with `y = e^{-θv}`. -/
+theorem h_eq {θ : ℝ} (hθ : θ ≠ 0) (u v : ℝ) :
+    h θ u v = r θ u * Real.exp (-θ * v) / ((1 - r θ u) + r θ u * Real.exp (-θ * v)) := by
+  have h1 := g_one_ne_zero hθ
+  have hn : r θ u * Real.exp (-θ * v) = (g θ u * g θ v + g θ u) / g θ 1 := by
+    rw [← one_add_g, r]; ring
+  have hd : (1 - r θ u) + r θ u * Real.exp (-θ * v) = (g θ u * g θ v + g θ 1) / g θ 1 := by
+    rw [← one_add_g, r]; field_simp; ring
+  rw [hd, hn, div_div_div_cancel_right₀ h1, h]
+
+theorem h_den_pos {θ u : ℝ} (hθ : θ ≠ 0) (hu : 0 ≤ u) (hu1 : u ≤ 1) (v : ℝ) :
+    0 < (1 - r θ u) + r θ u * Real.exp (-θ * v) := by
+  rw [← D_eq]; exact D_pos hθ v hu hu1
+
+/-- The conditional CDF takes values in `[0,1]` (for `u ∈ [0,1]`, every real `v`). -/
+theorem h_mem_Icc {θ u : ℝ} (hθ : θ ≠ 0) (hu : 0 ≤ u) (hu1 : u ≤ 1) (v : ℝ) :
+    0 ≤ h θ u v ∧ h θ u v ≤ 1 := by
+  have hp0 := r_nonneg hθ hu
+  have hp1 := r_le_one hθ hu1
+  have hy := Real.exp_pos (-θ * v)
+  have hden := h_den_pos hθ hu hu1 v
+  rw [h_eq hθ]
+  refine ⟨div_nonneg (mul_nonneg hp0 hy.le) hden.le, (div_le_one hden).mpr ?_⟩
+  linarith
+
+/-- `h(0,v) = 0/g(1) = 0`; the denominator `g(1)` is nonzero for θ ≠ 0 (`g_one_ne_zero`), so the
+value is genuine there (at the inadmissible θ = 0 it is the junk `0/0 = 0`). -/
+theorem h_zero_left (θ v : ℝ) : h θ 0 v = 0 := by simp [h]
+
+theorem h_one_left {θ : ℝ} (hθ : θ ≠ 0) (v : ℝ) : h θ 1 v = 1 := by
+  have : g θ 1 * g θ v + g θ 1 ≠ 0 := by
+    have : g θ 1 * g θ v + g θ 1 = g θ 1 * (1 + g θ v) := by ring
+    rw [this]; exact mul_ne_zero (g_one_ne_zero hθ) (one_add_g_pos θ v).ne'
+  rw [h, div_self this]
+
+/-- `h(·, v)` is nondecreasing on `[0,1]` (conditional CDF in its own argument). -/
+theorem h_mono_left {θ u u' : ℝ} (hθ : θ ≠ 0) (hu : 0 ≤ u) (huu : u ≤ u') (hu1 : u' ≤ 1)
+    (v : ℝ) : h θ u v ≤ h θ u' v := by
+  have hpp : r θ u ≤ r θ u' := (r_strictMono hθ).monotone huu
+  have hy := Real.exp_pos (-θ * v)
+  have hden := h_den_pos hθ hu (huu.trans hu1) v
+  have hden' := h_den_pos hθ (hu.trans huu) hu1 v
+  rw [h_eq hθ, h_eq hθ, div_le_div_iff₀ hden hden']
+  nlinarith [mul_nonneg (sub_nonneg.mpr hpp) hy.le]
+
+theorem h_strictMono_left {θ u u' : ℝ} (hθ : θ ≠ 0) (hu : 0 ≤ u) (huu : u < u') (hu1 : u' ≤ 1)
+    (v : ℝ) : h θ u v < h θ u' v := by
+  have hpp : r θ u < r θ u' := r_strictMono hθ huu
+  have hy := Real.exp_pos (-θ * v)
+  have hden := h_den_pos hθ hu (huu.le.trans hu1) v
+  have hden' := h_den_pos hθ (hu.trans huu.le) hu1 v
+  rw [h_eq hθ, h_eq hθ, div_lt_div_iff₀ hden hden']
+  nlinarith [mul_pos (sub_pos.mpr hpp) hy]
+
+/-- Row independence of the generated `partial_derivative`: the `θ == 0` branch after
+`check_fit` is dead, so for every θ ≠ 0 and every batch the result is the row-wise map of `h`. -/
+theorem h_rowwise {θ : ℝ} (hθ : θ ≠ 0) (xs : List (ℝ × ℝ)) :
+    Gen.Frank.h θ xs = .ok (xs.map fun p => h θ p.1 p.2) := by
+  unfold Gen.Frank.h
+  rw [checkFit_ok hθ]
+  simp only
+  rw [if_neg (by simp [hθ])]
+  congr 1
+  apply List.map_congr_left
+  intro p _
+  exact bridge_hRow θ p.1 p.2
+
+/-- Row independence of the generated `probability_density` (dead `θ == 0` branch included). -/
+theorem pdf_rowwise {θ : ℝ} (hθ : θ ≠ 0) (xs : List (ℝ × ℝ)) :
+    Gen.Frank.pdf θ xs = .ok (xs.map fun p => c θ p.1 p.2) := by
+  unfold Gen.Frank.pdf
+  rw [checkFit_ok hθ]
+  simp only
+  rw [if_neg (by simp [hθ])]
+  congr 1
+  apply List.map_congr_left
+  intro p _
+  exact bridge_pdfRow θ p.1 p.2
+
+/-- The `θ == 0` leaves (`h = v`, `pdf = u·v`) of the generated methods are unreachable: with
+`θ = 0` both methods raise `NotFittedError` in `check_fit`. -/
+theorem h_pdf_theta_zero (xs : List (ℝ × ℝ)) :
+    Gen.Frank.h (0 : ℝ) xs = .error .notFitted ∧ Gen.Frank.pdf (0 : ℝ) xs = .error .notFitted := by
+  simp [Gen.Frank.h, Gen.Frank.pdf, checkFit]
+
+/-! ### Rosenblatt identity -/
+
+theorem continuous_h_right {θ u : ℝ} (hθ : θ ≠ 0) (hu : 0 ≤ u) (hu1 : u ≤ 1) :
+    Continuous fun t => h θ u t := by
+  have hg := continuous_g θ
+  unfold h
+  exact Continuous.div (by fun_prop) (by fun_prop) (fun t => den_ne_zero' hθ hu hu1 t)
+
+/-- Rosenblatt identity: integrating the conditional CDF `h(u,·)` from `0` recovers `C(u,·)`
+(for `u ∈ [0,1]` and every real upper limit `v`, in particular `v ∈ [0,1]`). -/
+theorem integral_h {θ u : ℝ} (hθ : θ ≠ 0) (hu : 0 ≤ u) (hu1 : u ≤ 1) (v : ℝ) :
+    ∫ t in (0 : ℝ)..v, h θ u t = C θ u v := by
+  have := intervalIntegral.integral_eq_sub_of_hasDerivAt (f := fun t => C θ u t)
+    (f' := fun t => h θ u t) (a := 0) (b := v)
+    (fun t _ => hasDerivAt_C_right hθ hu hu1 t)
+    ((continuous_h_right hθ hu hu1).intervalIntegrable 0 v)
+  rw [this, C_zero_right, sub_zero]
+
+/-- Fundamental theorem of calculus for `h(u,·)` between arbitrary limits. -/
+theorem integral_h_sub {θ u : ℝ} (hθ : θ ≠ 0) (hu : 0 ≤ u) (hu1 : u ≤ 1) (a b : ℝ) :
+    ∫ t in a..b, h θ u t = C θ u b - C θ u a :=
+  intervalIntegral.integral_eq_sub_of_hasDerivAt (f := fun t => C θ u t)
+    (fun t _ => hasDerivAt_C_right hθ hu hu1 t)
+    ((continuous_h_right hθ hu hu1).intervalIntegrable a b)
+
+/-- 2-increasing: every rectangle `[u,u'] × [v,v']` with `[u,u'] ⊆ [0,1]` has nonnegative
+`C`-volume (so together with the boundary conditions `C` is a copula on the unit square). -/
+theorem C_two_increasing {θ u u' v v' : ℝ} (hθ : θ ≠ 0) (hu : 0 ≤ u) (huu : u ≤ u')
+    (hu1 : u' ≤ 1) (hvv : v ≤ v') : 0 ≤ C θ u' v' - C θ u' v - C θ u v' + C θ u v := by
+  have hu' : 0 ≤ u' := hu.trans huu
+  have hu1' : u ≤ 1 := huu.trans hu1
+  have key : 0 ≤ ∫ t in v..v', (h θ u' t - h θ u t) :=
+    intervalIntegral.integral_nonneg hvv
+      (fun t _ => sub_nonneg.mpr (h_mono_left hθ hu huu hu1 t))
+  rw [intervalIntegral.integral_sub ((continuous_h_right hθ hu' hu1).intervalIntegrable v v')
+    ((continuous_h_right hθ hu hu1').intervalIntegrable v v'),
+    integral_h_sub hθ hu' hu1, integral_h_sub hθ hu hu1'] at key
+  linarith
+
+/-! ### non-vacuity of the hypotheses used above -/
+
+example : HasDerivAt (fun v => C (-3) (1/2) v) (h (-3) (1/2) (1/3)) (1/3) :=
+  hasDerivAt_C_right (by norm_num) (by norm_num) (by norm_num) _
+
+example : HasDerivAt (fun u => h 5 u (1/3)) (c 5 (1/2) (1/3)) (1/2) :=
+  hasDerivAt_h_left (by norm_num) (by norm_num) (by norm_num) _
+
+example : φ (-3) (C (-3) (1/2) (1/3)) = φ (-3) (1/2) + φ (-3) (1/3) :=
+  φ_C (by norm_num) (by norm_num) (by norm_num) (by norm_num) (by norm_num)
+
+example : 0 < c (-3) (1/2) (1/3) ∧ 0 < c 3 0 1 :=
+  ⟨c_pos (by norm_num) (by norm_num) (by norm_num) _,
+   c_pos (by norm_num) (by norm_num) (by norm_num) _⟩
 
 end CopVerif.Frank
